@@ -1110,17 +1110,37 @@ def date_ymd(chk, prog, fn, orc, rule="R2.date_ymd"):
             for i, name in enumerate(rv["fields"]):
                 if name in ("year", "month", "day"):
                     fields.setdefault(name, []).append((conds, reg._operand(env, rv["ops"][i])))
-        allsyms = set()
-        for name in fields:
-            fields[name] = symx.expand(prog, b, fields[name], keep=lambda l: len(symx.def_blocks(b, l)) > 1)
-            for conds, e in fields[name]:
-                allsyms |= symx.syms(e)
-                for c, _ in conds:
-                    allsyms |= symx.syms(c)
-        # the loop-carried locals and the pre-loop year
+        raw_fields = fields
         in_loop_defs = lambda l: any(d in loop_blocks for d in symx.def_blocks(b, l))
+
+        def expand_with(extra):
+            fs_, all_ = {}, set()
+            for name in raw_fields:
+                fs_[name] = symx.expand(prog, b, raw_fields[name], keep=lambda l: len(symx.def_blocks(b, l)) > 1 or l == extra)
+                for conds, e in fs_[name]:
+                    all_ |= symx.syms(e)
+                    for c, _ in conds:
+                        all_ |= symx.syms(c)
+            return fs_, all_
+        fields, allsyms = expand_with(None)
+        # the loop-carried locals and the pre-loop year
         carried = [x for x in allsyms if in_loop_defs(x[1])]
         others = [x for x in allsyms if not in_loop_defs(x[1])]
+        if len(carried) == 2 and len(others) > 1:
+            # the pre-loop year is a value computed once (`let years = ..`) and only offset after the loop: keep that local as the symbol
+            cands = [l for l in range(b.argc + 1, len(b.locals)) if b.local_name(l) and len(symx.def_blocks(b, l)) == 1 and not in_loop_defs(l)
+                     and all(b.dominates(d, H) for d in symx.def_blocks(b, l))]
+            for l in sorted(cands, key=lambda l: -symx.def_blocks(b, l)[0]):
+                try:
+                    f2, a2 = expand_with(l)
+                except symx.NotDecidable:
+                    continue
+                o2 = [x for x in a2 if not in_loop_defs(x[1])]
+                if len(o2) == 1 and o2[0][1] == l and len([x for x in a2 if in_loop_defs(x[1])]) == 2:
+                    fields, allsyms = f2, a2
+                    carried = [x for x in allsyms if in_loop_defs(x[1])]
+                    others = o2
+                    break
         if len(carried) != 2 or len(others) != 1:
             raise symx.NotDecidable(f"fields depend on {[symx.show(x) for x in allsyms]}")
         ysym = others[0]
@@ -1131,12 +1151,17 @@ def date_ymd(chk, prog, fn, orc, rule="R2.date_ymd"):
         msym = next(x for x in carried if x in msyms)
         rsym = next(x for x in carried if x is not msym)
         bad = None
+        # (a constant added to the pre-loop year after the loop — `years + 2000` — is part of the year: it is read off here and added to the
+        # pre-loop value in step 1)
+        year_offset = symx.select(fields["year"], {msym: 0, rsym: 0, ysym: 0})
+        if not isinstance(year_offset, int) or isinstance(year_offset, bool):
+            raise symx.NotDecidable("the year field is not a number for m = 0")
         for m in range(12):
             for r in range(31):
                 for Y in (0, 1999, 2000):
                     bind = {msym: m, rsym: r, ysym: Y}
                     got = (symx.select(fields["year"], bind), symx.select(fields["month"], bind), symx.select(fields["day"], bind))
-                    want = (Y + (1 if m + 2 >= 12 else 0), (m + 2) % 12, r + 1)
+                    want = (Y + year_offset + (1 if m + 2 >= 12 else 0), (m + 2) % 12, r + 1)
                     if got != want and bad is None:
                         bad = (m, r, Y, got, want)
         chk.ob(rule, fn, site3, bad is None, f"with m={bad[0]}, r={bad[1]}, year={bad[2]}: fields (year, month, day) = {bad[3]}, required {bad[4]}" if bad else "", where=b.file)
@@ -1353,6 +1378,7 @@ def date_ymd(chk, prog, fn, orc, rule="R2.date_ymd"):
             y_, doy_, _, _, _ = _civil(R)
             r_got = symx.select(pr, {rs: R})
             y0 = symx.select(py, {rs: R, qsym: 0})
+            y0 = y0 + year_offset if isinstance(y0, int) else y0
             if r_got != doy_ or y0 != y_:
                 bad = (R, r_got, doy_, y0, y_)
                 break
@@ -1415,6 +1441,10 @@ def dates(chk, prog, orc):
     if ts:
         b = prog.bodies[ts[0]]
         sites = fmt.format_sites(b)
+        # (a date built from separately formatted pieces — `format!("{} {} GMT", date, time)` — is read with the pieces spliced in)
+        flat = [(blk_, fmt.format_parts_flat(b, blk_)) for blk_, _ in sites]
+        flat = [(blk_, p_) for blk_, p_ in flat if p_ is not None]
+        sites = sorted(flat, key=lambda x: -len(x[1])) or sites
         shape = [[(p[0], p[1] if p[0] == "lit" else "") for p in parts] for _, parts in sites]
         want = [("arg", ""), ("lit", ", "), ("arg", ""), ("lit", " "), ("arg", ""), ("lit", " "), ("arg", ""), ("lit", " "), ("arg", ""), ("lit", ":"), ("arg", ""), ("lit", ":"), ("arg", ""), ("lit", " GMT")]
         chk.ob("R1.dates", ts[0], "IMF-fixdate layout `Www, DD Mon YYYY HH:MM:SS GMT`", want in shape, f"{shape}")
